@@ -133,8 +133,8 @@ Lemma strict_spec_print_spec fmt_d fmt_g15 fmt_g17 :
 Proof.
   intro L. constructor.
   - intros z Hz. apply number_byte_nonzero, rfc_number_alphabet, (lss_d_rfc _ _ _ L), Hz.
-  - intros d Hd. apply number_byte_nonzero, rfc_number_alphabet, (lss_g15_rfc _ _ _ L), Hd.
-  - intros d Hd. apply number_byte_nonzero, rfc_number_alphabet, (lss_g17_rfc _ _ _ L), Hd.
+  - intros d Hd Hv. apply number_byte_nonzero, rfc_number_alphabet, (lss_g15_rfc _ _ _ L); assumption.
+  - intros d Hd Hv. apply number_byte_nonzero, rfc_number_alphabet, (lss_g17_rfc _ _ _ L); assumption.
   - apply (lss_d_len _ _ _ L).
   - apply (lss_g15_len _ _ _ L).
   - apply (lss_g17_len _ _ _ L).
@@ -312,7 +312,8 @@ Section StripWs.
     destruct (t =? c_cJSON_Number) eqn:E4.
     { destruct (is_nan vd || is_inf vd) eqn:Ef.
       - rewrite (number_text_nonfinite fmt_d fmt_g15 fmt_g17 sscanf_lg _ _ Ef). do 2 eexists; (split; [reflexivity|split; [reflexivity|]]). intro rest; reflexivity.
-      - destruct (number_text_finite fmt_d fmt_g15 fmt_g17 sscanf_lg L vi vd H2 Ef) as [Hr Hl].
+      - apply andb_true_iff in H2 as [H2 H2v].
+        destruct (number_text_finite fmt_d fmt_g15 fmt_g17 sscanf_lg L vi vd H2 H2v Ef) as [Hr Hl].
         destruct (Z.ltb_spec (c_NUMBER_BUFFER_SIZE - 1) (zlen (number_text vi vd))) as [Hlt|_]; [lia|].
         do 2 eexists; (split; [reflexivity|split; [reflexivity|]]). apply strips_number, Hr. }
     destruct (t =? c_cJSON_Raw) eqn:E5.
